@@ -152,7 +152,7 @@ type outerDial struct {
 	target   string
 	inv, ret int
 	done     bool
-	attempts []string // innermost addresses attempted
+	attempts []string      // innermost addresses attempted
 	t        time.Duration // fake time at invocation
 	tRet     time.Duration // fake time at return
 }
@@ -214,7 +214,7 @@ func runDial(tt *testing.T, tape *simrt.Tape, keep bool) (out simrt.Outcome) {
 		// connect-to map
 		var cmap map[string][]string
 		var mapped string
-		var repl []string
+		var repl, moreSources []string
 		switch mode {
 		case "connect-to", "dns+connect-to":
 			mapped = "svc.test:80"
@@ -227,6 +227,18 @@ func runDial(tt *testing.T, tape *simrt.Tape, keep bool) (out simrt.Outcome) {
 				}
 			}
 			cmap = map[string][]string{mapped: repl}
+			if mode == "connect-to" {
+				// further mapped sources, each with its own replacement list: every one must rotate evenly on its own
+				for j := 0; j < tape.Choose(3); j++ {
+					src := fmt.Sprintf("svc%d.test:%d", j+2, 80+j)
+					var rs []string
+					for i := 0; i < 1+tape.Choose(4); i++ {
+						rs = append(rs, fmt.Sprintf("10.8.%d.%d:%d", j+1, i+1, 9000+i))
+					}
+					cmap[src] = rs
+					moreSources = append(moreSources, src)
+				}
+			}
 		case "connect-to+dns":
 			// ConnectTo sits below the DNS layer: it sees resolved ip:port pairs
 			mapped = net.JoinHostPort(first["svc.test."][0], "80")
@@ -266,7 +278,8 @@ func runDial(tt *testing.T, tape *simrt.Tape, keep bool) (out simrt.Outcome) {
 		atk := vegeta.NewAttacker(opts...)
 		w.Activate()
 		dial := tr.DialContext
-		targets := []string{"svc.test:80", "10.1.1.1:8080"}
+		targets := append([]string{"svc.test:80", "10.1.1.1:8080"}, moreSources...)
+		pattern := tape.Choose(3) // 0: mostly the first target, 1: strict rotation over all targets, 2: random
 		nworkers := 1 + tape.Biased(6, 1, 3)
 		if tape.Prob(1, 25) {
 			nworkers = 8 + tape.Choose(57)
@@ -369,7 +382,12 @@ func runDial(tt *testing.T, tape *simrt.Tape, keep bool) (out simrt.Outcome) {
 			switch ar.Kind {
 			case kDialIdle:
 				ti := 0
-				if tape.Prob(1, 8) {
+				switch {
+				case pattern == 1:
+					ti = started % len(targets)
+				case pattern == 2:
+					ti = tape.Choose(len(targets))
+				case tape.Prob(1, 8):
 					ti = 1 // an address that is neither resolved nor mapped
 				}
 				id := int64(started + 1)
@@ -470,12 +488,25 @@ func checkDialHistory(fail func(string, string, ...any), stats map[string]int, m
 		return map[string]bool{r: true}
 	}
 	replUse := map[string]int{}
+	extraUse := map[string]map[string]int{}
 	nMapped := 0
 	used := map[string]int{}
 	for i, d := range order {
 		if !d.done {
 			fail("C18.stuck", "dial #%d never returned", i+1)
 			return
+		}
+		if rs, ok := cmap[d.target]; ok && d.target != "svc.test:80" {
+			// one of the additional mapped sources (connect-to mode only)
+			if len(d.attempts) != 1 || !contains(rs, d.attempts[0]) {
+				fail("C18.foreign-address", "dial #%d to the mapped address %s reached the dialer as %q (replacements %v)", i+1, d.target, d.attempts, rs)
+				return
+			}
+			if extraUse[d.target] == nil {
+				extraUse[d.target] = map[string]int{}
+			}
+			extraUse[d.target][d.attempts[0]]++
+			continue
 		}
 		if d.target != "svc.test:80" {
 			// unmapped, unresolved literal address: must pass through unchanged, exactly one attempt
@@ -568,6 +599,21 @@ func checkDialHistory(fail func(string, string, ...any), stats map[string]int, m
 			stats["probe.rotation-checked"]++
 		}
 	}
+	for src, use := range extraUse {
+		rs := cmap[src]
+		n := 0
+		for _, c := range use {
+			n += c
+		}
+		k := len(rs)
+		for _, r := range rs {
+			if c := use[r]; c != n/k && c != (n+k-1)/k {
+				fail("C18.rotation", "after %d dials to the mapped address %s its %d replacements were used %v times (want %d or %d each)", n, src, k, use, n/k, (n+k-1)/k)
+				return
+			}
+		}
+		stats["probe.rotation-checked-extra-source"]++
+	}
 	if mode == "dns" && long && !changes {
 		// every resolved address keeps being used: all of them within the run, and in its last quarter too
 		set := withPort(first["svc.test."], "80")
@@ -611,4 +657,13 @@ func keysOf(m map[string]bool) []string {
 	}
 	sort.Strings(k)
 	return k
+}
+
+func contains(s []string, x string) bool {
+	for _, y := range s {
+		if y == x {
+			return true
+		}
+	}
+	return false
 }
